@@ -1,6 +1,6 @@
 (* Properties/C13.v — Schema values persist exactly; comparison is reflexive and complete.
    Statements only: each theorem is closed by [exact] of a lemma proved in theories/. *)
-From SF Require Import Bytes Schema SchemaProofs ExtractedAgree.
+From SF Require Import Bytes Schema SchemaProofs SchemaProofs3 ExtractedAgree.
 
 (* any schema value survives write + read at library format 2 (and exactly its bytes are consumed) *)
 Theorem C13_rt2 : forall s, wfs s = true -> forall r, de_top 2 (ser 2 s ++ r) = Ok (s, r).
@@ -104,10 +104,14 @@ Theorem C13_refl_refuted_undefined :
           (SFuture (TD [84] [] false false) false false false) false = DPanic.
 Proof. split; reflexivity. Qed.
 
-(* K13p: a stored trait name with an unknown "+segment" panics the reader *)
-Theorem C13_trait_plus_refuted :
-  de_top 2 ([15; 1] ++ enc_string [84; 43; 70; 111; 111] ++ enc_usize 0) = Panic.
+(* since fix F17: a stored trait name with an unknown "+segment" is rejected with an error (it used to panic) *)
+Theorem C13_trait_plus_rejected :
+  de_top 2 ([15; 1] ++ enc_string [84; 43; 70; 111; 111] ++ enc_usize 0) = Err EGeneral.
 Proof. vm_compute. reflexivity. Qed.
+
+(* ... and, since that fix, the schema reader never panics: on ANY bytes, at any format version *)
+Theorem C13_reader_no_panic : forall fv bs, de_top fv bs <> Panic.
+Proof. exact de_top_no_panic. Qed.
 
 (* the model's tag tables, gates and limits are those of /repo's current source *)
 Theorem C13_tables_agree : schema_tables_agree_stmt.
